@@ -15,7 +15,7 @@ from . import c14
 
 RULE = ('pairs (A, B) of build-validate-serialise workloads (element + oracle-valid attributes + value + simple '
         'children) drawn from the oracle\'s type graph: same complex type / same element class / types sharing an '
-        'attribute group / unrelated control, plus a fixed panel of pairs (and, derived from the oracle, one pair per enumerated simple type that restricts another enumerated type: A offers the derived type a literal only the base allows, B offers it to the base type); for each pair EVERY single-pre-emption '
+        'attribute group / unrelated control, plus a fixed panel of pairs (and, derived from the oracle, one pair per enumerated simple type that restricts another enumerated type: A offers the derived type a literal only the base allows, B offers it to the base type; and one pair per referenced attribute (xml:lang) that is required in one type and optional in another); for each pair EVERY single-pre-emption '
         'schedule is executed: thread A is stopped by a sys.settrace line hook at its k-th executed line inside the '
         'musicxml package (k = 1..N, N measured, ~2-4k), thread B runs to completion in the gap, A resumes.  Each '
         'schedule runs in a child forked from a fresh interpreter that has only imported the library, so the lazily '
@@ -78,7 +78,31 @@ def derived_enumeration_pairs():
     return out
 
 
+def referenced_attribute_pairs():
+    """from the oracle: attributes declared once and REFERENCED from several types (xml:lang) with different 'use'.
+    Thread A uses a type where the attribute is required (and sets it), thread B serialises an element of a type where
+    it is optional and leaves it out: whatever the two share, B gets its document."""
+    from ..oracle import lexical
+    from ..driver import stub_value, py_name
+    s = schema()
+    uses = {}
+    for el, t in sorted(s.element_type.items()):
+        for a in s.attributes_of(t):
+            if a['qname'].startswith('xml:') and a['qname'] != 'xml:space':
+                uses.setdefault(a['qname'], {}).setdefault(bool(a['required']), []).append((el, a))
+    out = []
+    for q, by in sorted(uses.items()):
+        if by.get(True) and by.get(False):
+            el_r, a = by[True][0]
+            ok, pv = lexical.python_value_for(a['type'], lexical.valid_texts(a['type'])[0])
+            wa = {'element': el_r, 'value': stub_value(el_r), 'attrs': {py_name(q.split(':')[-1]): pv}}
+            for el_o, _ in by[False][:2]:
+                out.append((wa, {'element': el_o, 'value': stub_value(el_o), 'attrs': {}}))
+    return out
+
+
 PANEL += derived_enumeration_pairs()
+PANEL += referenced_attribute_pairs()
 
 
 def run_pair(wa, wb, ks=None, max_k=None, offset=0, slice_=None, of=None):
